@@ -89,6 +89,20 @@ def run(ctx):
     ctx.add_mc('MC_Alias(Big=%d)' % (0 if q else 1), res)
     rng = ctx.rng
     cases = []
+    # (FIRST in the run: whatever the library remembers per class is still unset, and the base classes are
+    #  evaluated before the classes derived from them)
+    # custom check classes of every call signature (4 parameters, 3, derived 3-from-4 and 4-from-3, a 4th
+    # parameter under another name), evaluated one after the other on one enforcer in every order: each is
+    # told the enforced name iff ITS signature takes it
+    import itertools as _it
+    KINDS_P = [(4, False), (3, False), (3, True), (4, True), (4, 'n')]
+    for (a1, d1), (a2, d2) in _it.permutations(KINDS_P, 2):
+        pa, pb = ev.probe(1, a1, 'f1', d1), ev.probe(2, a2, 'f2', d2)
+        rules = [('p:a', pa), ('p:b', pb), ('p:c', ev.And(ev.rule('p:a'), ev.rule('p:b'))), ('p:d', ev.Or(ev.rule('p:b'), ev.rule('p:a')))]
+        enf = ev.make_enforcer({n: ev.rule_text(t) for n, t in rules}, ('opt', None))
+        for qn in ('p:a', 'p:b', 'p:c', 'p:d', 'p:b', 'p:a'):
+            cases.append(ec.enforce_case(rules, {'by': 'name', 'name': qn}, {}, {'roles': [], 'f': ['f1', 'f2']}, dflt=('opt', None), checklog=1,
+                                         want='c06', enforcer=enf))
     n_graphs = 60 if q else 1500
     n_inl = 0
     max_chain = 0
